@@ -30,7 +30,8 @@ JudgeC01RL(r) ==
     /\ r.hdr = RLHeader(r.rl)
     /\ r.unit = RLUnit(r.rl)
     /\ r.uniform
-    /\ r.total = Len(r.hdr) + r.rl.n * Width(r.rl.k)
+    /\ r.total = Len(r.hdr) + (IF r.rl.k = "LOC" THEN r.rl.n + 2 ELSE r.rl.n * Width(r.rl.k))
+    /\ r.rl.k = "LOC" => r.lsh = <<1, 2>>
     /\ r.enclen = r.total
     /\ r.det /\ r.dec_eq
 
